@@ -1,5 +1,6 @@
 import VaxisModel.Lemmas.Input
 import VaxisModel.Lemmas.InputLoop
+import VaxisModel.Lemmas.InputEvents
 
 /-!
 # C03 — every terminal report becomes the right event; the input loop survives any input
@@ -10,7 +11,7 @@ and the reply channels).  The facts read from the source on every run are in `Ge
 -/
 namespace VaxisModel.Props.C03
 open VaxisModel.Model.Input VaxisModel.Model.InputLoop
-open VaxisModel.Lemmas.Input VaxisModel.Lemmas.InputLoop
+open VaxisModel.Lemmas.Input VaxisModel.Lemmas.InputLoop VaxisModel.Lemmas.InputEvents
 open VaxisModel.Spec.InputEvents (mouseEvent UEvent)
 
 /-! ## Tie to the source: the constants and guards the theorems rely on -/
@@ -35,7 +36,7 @@ theorem send_kinds_safe : Kinds.safe Kinds.ofGen := by
 /-! ## mouse_exact -/
 
 /-- The model's `Mouse` for a spec-level mouse event. -/
-def mouseOfSpec : UEvent → Option Mouse
+def mouseOfSpec {κ : Type} : UEvent κ → Option Mouse
   | .mouse button col row et mods => some { button := button, row := row, col := col, eventType := et, mods := mods }
   | _ => none
 
@@ -44,7 +45,7 @@ def mouseOfSpec : UEvent → Option Mouse
 final byte — for every button value and all coordinates a Go `int` can hold. -/
 theorem mouse_exact (b x y : Nat) (rel : Bool) (hx : x < 2 ^ 63) (hy : y < 2 ^ 63) :
     parseMouse [ch '<'] [[(b : Int)], [(x : Int)], [(y : Int)]] (if rel then ch 'm' else ch 'M')
-      = .ok (mouseOfSpec (mouseEvent b x y rel)) := by
+      = .ok (mouseOfSpec (mouseEvent (κ := Unit) b x y rel)) := by
   have hg : mouseGuard [60] = .ok false := mouseGuard_sgr
   obtain ⟨h1, h2, h3, h4, h5⟩ := mouse_constants
   cases rel <;>
@@ -118,6 +119,89 @@ example :
      | some s => s.pend == [.sendSizeDone] && s.sizeDone == 1
      | none => false) = true := by decide
 
+
+/-! ## events_exact -/
+
+/-- For every list of well-formed reports (key presses in any legacy/kitty encoding that reaches
+the key decoder, SGR mouse reports, focus changes, paste brackets, consumed query replies, in-band
+resize and colour-theme notifications), handled in order from any state with no cursor-position
+request outstanding: no panic, and the application-visible events posted are exactly the events
+the grammar-level spec requires — one per report, in order, keys inside a paste marked as pasted,
+replies invisible.  (Sequence level: `SReport.seq` is what the parser delivers for the report,
+which is C02's round-trip property.) -/
+theorem events_exact (b64 : List Nat → Option (List Nat)) (rs : List SReport) (st : VState)
+    (hw : ∀ r ∈ rs, r.Wf) (hreq : st.reqCursorPos = false) :
+    ∃ st' evs, pipeline b64 st (rs.map SReport.seq) = .ok (st', evs) ∧
+      visible evs = VaxisModel.Spec.InputEvents.specEvents st.pastePending (rs.map SReport.spec) :=
+  pipeline_events b64 rs st hw hreq
+
+/-- Non-vacuity: paste start, `a`, paste end, Ctrl+Up, a mouse press, an unsolicited DA1. -/
+example : ∀ r ∈ [SReport.pasteStart, .key (.print [97] 1), .pasteEnd, .key (.csi [] [[1, 5]] (ch 'A')),
+    .mouse 0 3 4 false, .reply (.csi [ch '?'] [[62], [4]] (ch 'c'))], r.Wf := by
+  intro r hr
+  simp only [List.mem_cons, List.mem_nil_iff, or_false] at hr
+  rcases hr with rfl | rfl | rfl | rfl | rfl | rfl
+  · trivial
+  · trivial
+  · trivial
+  · simp [SReport.Wf, LegitKey, ch]
+  · simp [SReport.Wf]
+  · refine ⟨by decide, ?_⟩
+    intro p hp
+    simp at hp
+    rcases hp with rfl | rfl <;> simp
+
+/-! ## replies_internal -/
+
+/-- Every sequence consumed as a reply (DCS, APC, OSC; `CSI ? … c/S/u`, `CSI … y`, `CSI … t` other
+than the in-band resize, `CSI ? a;b n` other than the colour-theme report) posts only events of
+unexported types and leaves the paste and cursor-request flags untouched — in every state, whether
+solicited, unsolicited, repeated or malformed. -/
+theorem replies_internal (b64 : List Nat → Option (List Nat)) (st st' : VState) (s : Seq) (effs : List Effect)
+    (hq : isQueryReply s = true) (h : handle b64 st s = .ok (st', effs)) :
+    (∀ e ∈ posted effs, e.userVisible = false) ∧ st'.pastePending = st.pastePending ∧ st'.reqCursorPos = st.reqCursorPos := by
+  have hr := isQueryReply_ok b64 st s hq
+  simp only [h, replyOK, Bool.and_eq_true, beq_iff_eq] at hr
+  obtain ⟨⟨ha, hp⟩, hrq⟩ := hr
+  exact ⟨posted_internal effs ha, hp, hrq⟩
+
+/-- The start-up loop of `New` turns each internal event into exactly the capability it stands
+for: the record changes in at most that one field, which becomes true. -/
+theorem collect_exact (c : Caps) (i : Internal) :
+    (collect false c i).toList = match fieldIndex i with
+      | some k => c.toList.set k true
+      | none => c.toList := by
+  cases i <;> rfl
+
+/-- A cursor-position report while a request is outstanding is handed to the requester and
+clears the request; nothing is posted. -/
+theorem reply_cpr (b64 : List Nat → Option (List Nat)) (st : VState) (r c : Int) (h : st.reqCursorPos = true) :
+    handle b64 st (.csi [] [[r], [c]] (ch 'R')) = .ok ({ st with reqCursorPos := false }, [.sendCursorPos r c]) := by
+  simp [handle, handleCSI, ch, h, idx2, idx, bind, Except.bind, pure, Except.pure]
+
+/-- A character-size report once the capability is known updates exactly columns and rows and
+signals `chSizeDone`; before that it only announces the capability. -/
+theorem reply_size_chars (b64 : List Nat → Option (List Nat)) (st : VState) (h w : Int) :
+    handle b64 st (.csi [] [[8], [h], [w]] (ch 't')) =
+      .ok ({ st with nextSize := { st.nextSize with cols := w, rows := h } },
+           if st.caps.reportSizeChars then [.sendSizeDone] else [.postB (.internal .textAreaChar)]) := by
+  cases hc : st.caps.reportSizeChars <;>
+  simp [handle, handleCSI, ch, idx2, idx, bind, Except.bind, pure, Except.pure, post, hc]
+
+theorem reply_size_pixels (b64 : List Nat → Option (List Nat)) (st : VState) (h w : Int) :
+    handle b64 st (.csi [] [[4], [h], [w]] (ch 't')) =
+      .ok ({ st with nextSize := { st.nextSize with xpix := w, ypix := h } },
+           if st.caps.reportSizePixels then [] else [.postB (.internal .textAreaPix)]) := by
+  cases hc : st.caps.reportSizePixels <;>
+  simp [handle, handleCSI, ch, idx2, idx, bind, Except.bind, pure, Except.pure, post, hc]
+
+/-- A foreground-colour reply is offered to `QueryForeground` only once the capability is known,
+and always announces the capability; likewise OSC 4 and 11. -/
+theorem reply_osc10 (b64 : List Nat → Option (List Nat)) (st : VState) (rest : List Nat) :
+    handle b64 st (.osc (ch '1' :: ch '0' :: rest)) =
+      .ok (st, (if st.caps.osc10 then [Effect.sendFg (ch '1' :: ch '0' :: rest)] else []) ++ [.postB (.internal .capabilityOsc10)]) := by
+  simp [handle, handleOSC, isPrefix, str, ch, bind, Except.bind, pure, Except.pure]
+
 /-! ## Coverage of `handleSequence` (regenerated skeleton) -/
 
 /-- The arms of `handleSequence` are exactly those the model transcribes: adding, removing or
@@ -130,7 +214,7 @@ theorem switch_coverage : Gen.Caps.hs_switches = [
     ("seq.Parameters[0][0]", ["colorThemeResp"]),
     ("seq.Parameters[0][0]", ["2026", "2027", "2031"]),
     ("seq.Parameters[1][0]", ["1", "2"]),
-    ("seq.Parameters[1][0]", ["1", "2"]),
+    ("seq.Parameters[1][0]", ["1", "2", "3"]),
     ("seq.Parameters[1][0]", ["1", "2"]),
     ("seq.Parameters[0][0]", ["200", "201"]),
     ("typ", ["4", "8", "48"]),
@@ -139,6 +223,10 @@ theorem switch_coverage : Gen.Caps.hs_switches = [
     ("seq.Intermediate[0]", ["'+'", "'$'"]),
     ("vals[0]", ["hexEncode(\"Smulx\")", "hexEncode(\"RGB\")"]),
     ("seq.Intermediate[0]", ["'!'", "'>'"])] := by decide +kernel
+
+/-- The DECRPM values the model reads from the source: set/reset for 2026 and 2031, and also
+"permanently set" for 2027. -/
+theorem decrpm_values : decrpmVals 0 = [1, 2] ∧ decrpmVals 1 = [1, 2, 3] ∧ decrpmVals 2 = [1, 2] := by decide +kernel
 
 theorem literal_coverage : Gen.Caps.hs_literals = [
     ("strings.Split", "="), ("hexEncode", "Smulx"), ("hexEncode", "RGB"), ("strings.HasSuffix", " q"),
